@@ -21,5 +21,15 @@ Definition run_case (c : icase) : string :=
   | Ok _ => "ok" | Err => "err" | Panic => "panic" end.
 Definition run_all (l : list icase) : string := unlines (map run_case l).
 
+(** the same vector through blind issuance: the schema has one more claim (Hashed, no validators,
+    blindable) hidden by an honest holder; the vector is the issuer's own part, labels in index order *)
+Definition run_blind (c : icase) : string :=
+  let n := List.length (i_schema c) in
+  let sch := (i_schema c ++ [mkCS THashed []])%list in
+  let known := combine (seq 0 (List.length (i_claims c))) (i_claims c) in
+  match blind_sign_credential (fun k _ => rx_lookup (i_rx c) k) utf8_valid (fun _ => 1%N) sch [n] (pre_state (i_state c)) [n] known true with
+  | Ok _ => "ok" | Err => "err" | Panic => "panic" end.
+Definition run_blinds (l : list icase) : string := unlines (map run_blind l).
+
 Definition run_schema (p : list N * list N) : string := if schema_new (fst p) (snd p) then "ok" else "err".
 Definition run_schemas (l : list (list N * list N)) : string := unlines (map run_schema l).
